@@ -697,6 +697,37 @@ theorem async_alternating_drains (cap : Nat) (hcap : 0 < cap) (evs wr : List Eve
       List.nil_append]
     exact ih _
 
+theorem lifeStep_started (st : Option DumperSt) (op : LifeOp)
+    (hst : ∀ x, st = some x → x.started = true) :
+    ∀ x, lifeStep st op = some x → x.started = true := by
+  intro x hx
+  cases st with
+  | none => cases op <;> simp [lifeStep] at hx <;> subst hx <;> rfl
+  | some d0 =>
+    have h0 := hst d0 rfl
+    cases op <;> simp [lifeStep] at hx <;> subst hx <;> simp [h0]
+
+theorem lifeFold_started (ops : List LifeOp) (st : Option DumperSt)
+    (hst : ∀ x, st = some x → x.started = true) :
+    ∀ y, ops.foldl lifeStep st = some y → y.started = true := by
+  induction ops generalizing st with
+  | nil => intro y hy; exact hst y hy
+  | cons op ops ih =>
+    intro y hy
+    exact ih (lifeStep st op) (lifeStep_started st op hst) y hy
+
+/-- **lifecycle_always_started**: after ANY sequence of enabling, re-configuring (also
+sync → async on a live dumper), disabling and cloning, the client's dumper — if there is one —
+has a running `Start` loop, hence (`async_same_content`, `async_alternating_drains`) delivers
+whatever its options are switched to later. (A clone that starts the loop only when the copied
+options are async at that moment breaks exactly this.) -/
+theorem lifecycle_always_started (ops : List LifeOp) (d : DumperSt) (h : lifeRun ops = some d) :
+    d.started = true ∧ d.delivers = true := by
+  have := lifeFold_started ops none (by simp) d h
+  simp [DumperSt.delivers, this]
+
+example : lifeRun [.set false, .clone, .asyncAll] = some ⟨true, true⟩ := by decide
+
 /-- **unstarted_async_writes_nothing**: a dumper whose `Start` loop was never launched (every
 request-level dumper of the pinned tree) writes nothing under any schedule… -/
 theorem unstarted_async_writes_nothing (cap : Nat) (evs : List Event) (sched : List Step) :
